@@ -10,7 +10,7 @@ from mc import par
 from mc.report import Report, Acc, exc_sig
 from mc.oracle import gf2
 
-from bitarray import bitarray
+from bitarray import bitarray, frozenbitarray
 from bitarray.util import int2ba, ba2int
 import numpy
 
@@ -74,10 +74,17 @@ def w_generate(task):
                 )
             if cls.check(int2ba(c, n)) is not True and cls.check(int2ba(c, n)) != True:  # noqa: E712
                 acc.violation("encoder_output_rejected", case, "check(generate(m)) is false")
+            # the encoder's own return value, handed to the checker as it is, and the same bits in a read-only container
+            if not cls.check(out):
+                acc.violation("encoder_output_object_rejected", case, "check() of the very object generate() returned is false")
+            if not cls.check(frozenbitarray(int2ba(c, n))):
+                acc.violation("encoder_output_rejected:frozenbitarray", case)
+            if to_int(cls.generate(frozenbitarray(mb))) != want:
+                acc.violation("generate_differs_for_frozenbitarray", case)
             if mb != int2ba(m, k):
                 acc.violation("generate_mutates_input", case)
             gen.append(c)
-            acc.case(nontrivial=True, calls=2, outcome=gf2.weight(c), sample=case if m == lo else None)
+            acc.case(nontrivial=True, calls=5, outcome=gf2.weight(c), sample=case if m == lo else None)
         except Exception as e:  # any exception on a valid message is a violation
             acc.violation("exception_generate:" + exc_sig(e), case, repr(e))
             acc.case()
@@ -151,6 +158,11 @@ def w_single(task):
                         if ok:
                             acc.violation("double_error_reported_repaired", {**case, "out": format(to_int(out), f"0{n}b")},
                                           "(16,11,4) double error reported as repaired instead of uncorrectable")
+                        arr_in = numpy.array([int(b) for b in format(w, f"0{n}b")])
+                        arr = cls.correct_numpy_array(arr_in)
+                        if to_int(arr) != w:
+                            acc.violation("double_error_mis_repaired_numpy", {**case, "out": format(to_int(arr), f"0{n}b")},
+                                          "correct_numpy_array alters a (16,11,4) word with two inverted bits instead of leaving it as uncorrectable")
                     except Exception as e:
                         acc.violation("exception_correct:" + exc_sig(e), case, repr(e))
                     acc.case(nontrivial=True, outcome="double", sample=case if (m == lo and i == 0 and j == 1) else None)
@@ -184,6 +196,11 @@ def w_correct_all_words(task):
                                   "check_and_correct says ok but output is no codeword within distance 1")
             elif near is not None:
                 acc.violation("correctable_word_reported_uncorrectable", case)
+            # the numpy front end of the same corrector (the one BPTC uses): nearest codeword, or the word untouched
+            arr = to_int(cls.correct_numpy_array(numpy.array([int(b) for b in format(w, f"0{n}b")])))
+            if arr != (near if near is not None else w):
+                acc.violation("numpy_corrector_differs:" + ("correctable" if near is not None else "uncorrectable"), {**case, "out": format(arr, f"0{n}b")},
+                              "correct_numpy_array does not return the codeword within distance 1, or alters a word that has none")
         except Exception as e:
             acc.violation("exception_correct:" + exc_sig(e), case, repr(e))
         acc.case(nontrivial=True, outcome=("ok" if near is not None else "uncorrectable"), sample=case if w == lo else None)
